@@ -38,6 +38,7 @@ static uint64_t *h_key = 0; static unsigned char *h_mask = 0, *h_wr = 0;
 /* shared set (sorted granules) */
 static uint64_t *shared = 0; static long n_shared = 0; static int all_points = 0;
 static int single_seen[MAXT], single_claimed = 0;
+static int pending_loop = 0; static long pl_start, pl_end, pl_incr, pl_chunk;
 static int deadlock = 0, n_regions = 0, new_shared = 0, overflow = 0;
 
 static void tables_init(void) {
@@ -119,6 +120,7 @@ static void thread_main(int id) {
 }
 
 /* ---------------------------------------------------------------- libgomp entry points */
+static void reset_loops(void);
 void GOMP_parallel(void (*fn)(void *), void *data, unsigned num_threads, unsigned flags) {
     (void) flags; (void) num_threads;
     if (in_parallel) { fn(data); return; }       /* nested region: serialised */
@@ -126,6 +128,7 @@ void GOMP_parallel(void (*fn)(void *), void *data, unsigned num_threads, unsigne
     n_regions++;
     par_fn = fn; par_data = data; in_parallel = 1;
     memset(single_seen, 0, sizeof single_seen); single_claimed = 0;
+    reset_loops();
     for (int i = 0; i < T; i++) {
         if (!th[i].stack) th[i].stack = (char *) malloc(STACK_SZ);
         getcontext(&th[i].ctx);
@@ -152,6 +155,69 @@ int GOMP_single_start(void) {
     int k = ++single_seen[cur];
     if (k > single_claimed) { single_claimed = k; return 1; }
     return 0;
+}
+/* #pragma omp for schedule(dynamic|guided|runtime): a shared chunk counter per loop construct; taking the next chunk is a
+   scheduling point, so the explorer also enumerates which thread gets which chunk.  The k-th loop construct a thread
+   enters is work-share k; the first thread to arrive initialises it. */
+#define MAXLOOPS 64
+static struct { long next, end, incr, chunk; int init; } loops[MAXLOOPS];
+static int loop_seen[MAXT];
+static int loop_take(long *istart, long *iend) {
+    int k = loop_seen[cur] % MAXLOOPS;
+    sched_point(0, 0, 1);
+    long n = loops[k].next, e = loops[k].end, inc = loops[k].incr;
+    if (inc > 0 ? n >= e : n <= e) return 0;
+    long stop = n + loops[k].chunk * inc;
+    if (inc > 0 ? stop > e : stop < e) stop = e;
+    loops[k].next = stop; *istart = n; *iend = stop;
+    return 1;
+}
+static int loop_start(long start, long end, long incr, long chunk, long *istart, long *iend) {
+    if (!in_parallel || cur < 0) { *istart = start; *iend = end; return incr > 0 ? start < end : start > end; }
+    int k = ++loop_seen[cur] % MAXLOOPS;
+    sched_point(0, 0, 1);
+    if (loops[k].init != loop_seen[cur]) {
+        loops[k].next = start; loops[k].end = end; loops[k].incr = incr; loops[k].chunk = chunk > 0 ? chunk : 1; loops[k].init = loop_seen[cur];
+    }
+    return loop_take(istart, iend);
+}
+int GOMP_loop_dynamic_start(long s, long e, long i, long c, long *a, long *b) { return loop_start(s, e, i, c, a, b); }
+int GOMP_loop_nonmonotonic_dynamic_start(long s, long e, long i, long c, long *a, long *b) { return loop_start(s, e, i, c, a, b); }
+int GOMP_loop_guided_start(long s, long e, long i, long c, long *a, long *b) { return loop_start(s, e, i, c, a, b); }
+int GOMP_loop_nonmonotonic_guided_start(long s, long e, long i, long c, long *a, long *b) { return loop_start(s, e, i, c, a, b); }
+int GOMP_loop_runtime_start(long s, long e, long i, long *a, long *b) { return loop_start(s, e, i, 1, a, b); }
+int GOMP_loop_nonmonotonic_runtime_start(long s, long e, long i, long *a, long *b) { return loop_start(s, e, i, 1, a, b); }
+int GOMP_loop_maybe_nonmonotonic_runtime_start(long s, long e, long i, long *a, long *b) { return loop_start(s, e, i, 1, a, b); }
+static int loop_next(long *a, long *b) { if (!in_parallel || cur < 0) return 0; return loop_take(a, b); }
+int GOMP_loop_dynamic_next(long *a, long *b) { return loop_next(a, b); }
+int GOMP_loop_nonmonotonic_dynamic_next(long *a, long *b) { return loop_next(a, b); }
+int GOMP_loop_guided_next(long *a, long *b) { return loop_next(a, b); }
+int GOMP_loop_nonmonotonic_guided_next(long *a, long *b) { return loop_next(a, b); }
+int GOMP_loop_runtime_next(long *a, long *b) { return loop_next(a, b); }
+int GOMP_loop_nonmonotonic_runtime_next(long *a, long *b) { return loop_next(a, b); }
+int GOMP_loop_maybe_nonmonotonic_runtime_next(long *a, long *b) { return loop_next(a, b); }
+void GOMP_loop_end(void) { GOMP_barrier(); }
+void GOMP_loop_end_nowait(void) {}
+/* combined parallel + loop: the work-share exists before the threads start; they only call *_next */
+static void parallel_loop(void (*fn)(void *), void *data, long start, long end, long incr, long chunk) {
+    if (in_parallel) { fn(data); return; }
+    pending_loop = 1; pl_start = start; pl_end = end; pl_incr = incr; pl_chunk = chunk > 0 ? chunk : 1;
+    GOMP_parallel(fn, data, 0, 0);
+}
+void GOMP_parallel_loop_dynamic(void (*fn)(void *), void *d, unsigned n, long s, long e, long i, long c, unsigned f) { (void) n; (void) f; parallel_loop(fn, d, s, e, i, c); }
+void GOMP_parallel_loop_nonmonotonic_dynamic(void (*fn)(void *), void *d, unsigned n, long s, long e, long i, long c, unsigned f) { (void) n; (void) f; parallel_loop(fn, d, s, e, i, c); }
+void GOMP_parallel_loop_guided(void (*fn)(void *), void *d, unsigned n, long s, long e, long i, long c, unsigned f) { (void) n; (void) f; parallel_loop(fn, d, s, e, i, c); }
+void GOMP_parallel_loop_nonmonotonic_guided(void (*fn)(void *), void *d, unsigned n, long s, long e, long i, long c, unsigned f) { (void) n; (void) f; parallel_loop(fn, d, s, e, i, c); }
+void GOMP_parallel_loop_runtime(void (*fn)(void *), void *d, unsigned n, long s, long e, long i, unsigned f) { (void) n; (void) f; parallel_loop(fn, d, s, e, i, 1); }
+void GOMP_parallel_loop_nonmonotonic_runtime(void (*fn)(void *), void *d, unsigned n, long s, long e, long i, unsigned f) { (void) n; (void) f; parallel_loop(fn, d, s, e, i, 1); }
+void GOMP_parallel_loop_maybe_nonmonotonic_runtime(void (*fn)(void *), void *d, unsigned n, long s, long e, long i, unsigned f) { (void) n; (void) f; parallel_loop(fn, d, s, e, i, 1); }
+static void reset_loops(void) {
+    memset(loops, 0, sizeof loops); memset(loop_seen, 0, sizeof loop_seen);
+    if (pending_loop) {              /* work-share 1 of a combined parallel-loop construct */
+        loops[1].next = pl_start; loops[1].end = pl_end; loops[1].incr = pl_incr; loops[1].chunk = pl_chunk; loops[1].init = 1;
+        for (int i = 0; i < MAXT; i++) loop_seen[i] = 1;
+        pending_loop = 0;
+    }
 }
 int omp_get_thread_num(void) { return (in_parallel && cur >= 0) ? cur : 0; }
 int omp_get_num_threads(void) { return in_parallel ? T : 1; }
